@@ -166,6 +166,9 @@ pub struct OutTruth {
     pub value: u64,
     pub nf: u32,
     pub internal: bool,
+    /// index of the output among the outputs / actions of its pool in the transaction (the
+    /// `output_index` / `action_index` under which the wallet stores the note)
+    pub idx: u32,
 }
 /// Ground truth of one transaction: every nullifier it reveals (pool, id) in the order
 /// the scanner sees them per pool, and every output.
@@ -290,6 +293,8 @@ pub struct NoteRow {
     pub acct: usize,
     pub value: u64,
     pub recv_tx: u32,
+    /// `output_index` / `action_index`
+    pub idx: u32,
     /// txids (ids) of `*_received_note_spends`, sorted
     pub spent_by: Vec<u32>,
 }
@@ -354,9 +359,12 @@ pub struct World {
     genesis_hash: u32,
 }
 
-/// Nullifier of the note in `cout` (sent to the internal address of `dfvk`) at `position`.
-fn sapling_internal_nf(
+/// Nullifier of the Sapling note in `cout` (received by `dfvk` under `scope`) when its commitment
+/// sits at `position` of the note commitment tree.  A Sapling nullifier depends on that position, so
+/// the same output re-mined elsewhere in the tree has another nullifier.
+fn sapling_nf(
     dfvk: &sapling::zip32::DiversifiableFullViewingKey,
+    scope: zip32::Scope,
     cout: &zcash_client_backend::proto::compact_formats::CompactSaplingOutput,
     position: u32,
 ) -> [u8; 32] {
@@ -365,10 +373,10 @@ fn sapling_internal_nf(
         Zip212Enforcement,
     };
     let cod = CompactOutputDescription::try_from(cout).expect("compact output");
-    let ivk = PreparedIncomingViewingKey::new(&dfvk.to_ivk(zip32::Scope::Internal));
+    let ivk = PreparedIncomingViewingKey::new(&dfvk.to_ivk(scope));
     let (note, _) = try_sapling_compact_note_decryption(&ivk, &cod, Zip212Enforcement::On)
-        .expect("own internal output decrypts");
-    note.nf(&dfvk.to_nk(zip32::Scope::Internal), u64::from(position)).0
+        .expect("own output decrypts");
+    note.nf(&dfvk.to_nk(scope), u64::from(position)).0
 }
 
 fn seed_bytes(rng: &mut ChaChaRng) -> [u8; 32] {
@@ -510,6 +518,11 @@ impl World {
             for o in &spec.outs {
                 let at = if o.internal { AddressType::Internal } else { AddressType::DefaultExternal };
                 let v = Zatoshis::from_u64(o.value).unwrap();
+                let idx = match o.pool {
+                    Pool::Sapling => ctx.outputs.len(),
+                    Pool::Orchard => ctx.actions.len(),
+                    Pool::Ironwood => ctx.ironwood_actions.len(),
+                } as u32;
                 let (bytes, dummy): ([u8; 32], Option<[u8; 32]>) = match o.pool {
                     Pool::Sapling => {
                         let fvk = match o.owner {
@@ -521,7 +534,7 @@ impl World {
                         if o.internal {
                             // The test utility derives the nullifier with the external nk; a note sent
                             // to the internal (change) address is nullified with the internal nk.
-                            (sapling_internal_nf(&fvk, ctx.outputs.last().unwrap(), position), None)
+                            (sapling_nf(&fvk, zip32::Scope::Internal, ctx.outputs.last().unwrap(), position), None)
                         } else {
                             (nf.0, None)
                         }
@@ -559,7 +572,7 @@ impl World {
                     nf_id,
                     NoteInfo { owner: o.owner, pool: o.pool, value: o.value, bytes, height: h },
                 );
-                outs.push(OutTruth { owner: o.owner, pool: o.pool, value: o.value, nf: nf_id, internal: o.internal });
+                outs.push(OutTruth { owner: o.owner, pool: o.pool, value: o.value, nf: nf_id, internal: o.internal, idx });
             }
             sap_size += ctx.outputs.len() as u32;
             truths.push(TxTruth { txid: txid_id, index: i as u32, spends, outs });
@@ -604,6 +617,7 @@ impl World {
     /// new block on top of the best chain.
     pub fn remine(&mut self, orphan: &BlockRec, tx_indices: &[usize]) -> u32 {
         let h = BASE + self.chain.len() as u32;
+        let mut sap_size = self.state_before(h).final_sapling_tree().tree_size() as u32;
         let mut ctxs = vec![];
         let mut truths = vec![];
         for (k, i) in tx_indices.iter().enumerate() {
@@ -611,11 +625,22 @@ impl World {
             ctx.index = k as u64;
             let mut t = orphan.txs[*i].clone();
             t.index = k as u32;
-            for o in &t.outs {
-                if let Some(n) = self.notes.get_mut(&o.nf) {
-                    n.height = h;
+            for o in t.outs.iter_mut() {
+                let mut info = match self.notes.get(&o.nf) {
+                    Some(n) => n.clone(),
+                    None => continue,
+                };
+                info.height = h;
+                if let (Pool::Sapling, Some(a)) = (o.pool, o.owner) {
+                    // the note lands at another position of the Sapling tree: new nullifier
+                    let scope = if o.internal { zip32::Scope::Internal } else { zip32::Scope::External };
+                    let bytes = sapling_nf(&self.accts[a].sapling, scope, &ctx.outputs[o.idx as usize], sap_size + o.idx);
+                    info.bytes = bytes;
+                    o.nf = self.ids.nf(Pool::Sapling, bytes);
                 }
+                self.notes.insert(o.nf, info);
             }
+            sap_size += ctx.outputs.len() as u32;
             ctxs.push(ctx);
             truths.push(t);
         }
@@ -718,8 +743,9 @@ impl World {
             let p = pool.prefix();
             let mut st = conn
                 .prepare(&format!(
-                    "SELECT rn.id, rn.nf, rn.account_id, rn.value, t.txid FROM {p}_received_notes rn \
-                     JOIN transactions t ON t.id_tx = rn.transaction_id"
+                    "SELECT rn.id, rn.nf, rn.account_id, rn.value, t.txid, rn.{ix} FROM {p}_received_notes rn \
+                     JOIN transactions t ON t.id_tx = rn.transaction_id",
+                    ix = if pool == Pool::Sapling { "output_index" } else { "action_index" }
                 ))
                 .unwrap();
             let mut st2 = conn
@@ -735,6 +761,7 @@ impl World {
                 let acct: i64 = r.get(2).unwrap();
                 let value: i64 = r.get(3).unwrap();
                 let txid: Vec<u8> = r.get(4).unwrap();
+                let idx: u32 = r.get(5).unwrap();
                 let mut spent_by: Vec<u32> = st2
                     .query_map([id], |r| r.get::<_, Vec<u8>>(0))
                     .unwrap()
@@ -747,6 +774,7 @@ impl World {
                     acct: acct_rows[&acct],
                     value: value as u64,
                     recv_tx: self.ids.tx_get(&txid),
+                    idx,
                     spent_by,
                 });
             }
@@ -861,7 +889,7 @@ fn optn(x: Option<u32>) -> String {
     }
 }
 
-/// `mkBlock height hash prev [mkTx id [(pool, nf); ..] [mkOut owner pool value nf; ..]; ..]`
+/// `mkBlock height hash prev [mkTx id [(pool, nf); ..] [mkOut owner pool value nf idx; ..]; ..]`
 pub fn coq_block(b: &BlockRec) -> String {
     let txs: Vec<String> = b
         .txs
@@ -873,11 +901,12 @@ pub fn coq_block(b: &BlockRec) -> String {
                 .iter()
                 .map(|o| {
                     format!(
-                        "mkOut {} {} {} {}",
+                        "mkOut {} {} {} {} {}",
                         optn(o.owner.map(|a| a as u32)),
                         o.pool.code(),
                         o.value,
-                        o.nf
+                        o.nf,
+                        o.idx
                     )
                 })
                 .collect();
@@ -894,7 +923,7 @@ pub fn coq_dump(d: &Dump) -> String {
         .iter()
         .map(|n| {
             let sp: Vec<String> = n.spent_by.iter().map(|t| t.to_string()).collect();
-            format!("mkNote ({},{}) {} {} {} [{}]", n.pool, n.nf, n.acct, n.value, n.recv_tx, sp.join(";"))
+            format!("mkNote ({},{}) {} {} {} {} [{}]", n.pool, n.nf, n.acct, n.value, n.recv_tx, n.idx, sp.join(";"))
         })
         .collect();
     let txs: Vec<String> = d
